@@ -21,7 +21,7 @@ theorem compressLoop_inv {added : List (List α)} {cur : List α} (hadd : added 
   | succ n ih =>
     intro i s φ hni inv
     obtain ⟨k, rfl⟩ : ∃ k, i = k + 1 := ⟨i - 1, by omega⟩
-    obtain ⟨s1, φ1, h1, inv1⟩ := compressAt_inv inv hadd
+    obtain ⟨s1, φ1, h1, inv1, _⟩ := compressAt_inv inv hadd
     unfold flCompressLoop
     rw [h1]
     simp only [Nat.add_sub_cancel]
